@@ -139,8 +139,8 @@ impl<L: Language> Matcher<L> for Has<L> {
             if nd.matches(matcher) {
               None
             } else {
-              nd.children()
-                .find_map(|n| self.inner.match_node_with_env(n, env))
+              // descend like `has` without field does: until a node matches stopBy
+              self.find_until(&nd, matcher, env)
             }
           })
         }
@@ -154,19 +154,29 @@ impl<L: Language> Matcher<L> for Has<L> {
         .dfs()
         .skip(1)
         .find_map(|n| self.inner.match_node_with_env(n, env)),
-      StopBy::Rule(matcher) => {
-        // TODO: use Pre traversal to reduce stack allocation
-        node.children().find_map(|n| {
-          self.inner.match_node_with_env(n.clone(), env).or_else(|| {
-            if n.matches(matcher) {
-              None
-            } else {
-              self.match_node_with_env(n, env)
-            }
-          })
-        })
-      }
+      StopBy::Rule(matcher) => self.find_until(&node, matcher, env),
     }
+  }
+}
+
+impl<L: Language> Has<L> {
+  /// Find a descendant of `node` that matches `inner`, not descending below a node that matches `stop`.
+  // TODO: use Pre traversal to reduce stack allocation
+  fn find_until<'tree, D: Doc<Lang = L>>(
+    &self,
+    node: &Node<'tree, D>,
+    stop: &Rule<L>,
+    env: &mut Cow<MetaVarEnv<'tree, D>>,
+  ) -> Option<Node<'tree, D>> {
+    node.children().find_map(|n| {
+      self.inner.match_node_with_env(n.clone(), env).or_else(|| {
+        if n.matches(stop) {
+          None
+        } else {
+          self.find_until(&n, stop, env)
+        }
+      })
+    })
   }
 }
 
